@@ -7,7 +7,7 @@ from .engine import SV, State, Acc, Undecided, POISON, CONTAINER_CLASSES
 from .exprs import PURE_STR_METHODS
 
 DROPPED_CALLS = {
-    "print", "logging.getLogger", "warnings.warn", "traceback.print_exc", "sys.stdout.flush",
+    "print", "warnings.warn", "traceback.print_exc", "sys.stdout.flush",
     "sys.stderr.flush", "logging.warning",
 }
 DROPPED_METHOD_NAMES = {"warning", "error", "info", "debug", "exception", "flush"}
@@ -42,9 +42,14 @@ class CallMixin(object):
         if c is not None and c.callsites:
             ftext = ast.unparse(fnode)
             if ftext in c.callsites:
+                cc = self.get_contract(c.callsites[ftext])
+                recv = None
+                if isinstance(fnode, ast.Attribute) and cc.pos_params and cc.pos_params[0] == "self":
+                    st, recv = self.eval(fnode.value, st, acc)
+                    if recv.kind == "super":
+                        recv = recv.py[1]
                 st, args, kwargs = self.eval_args(node, st, acc)
-                return self.apply_contract(st, acc, self.get_contract(c.callsites[ftext]), None,
-                                           None, args, kwargs, node)
+                return self.apply_contract(st, acc, cc, None, recv, args, kwargs, node)
         st, f = self.eval(fnode, st, acc)
         st, args, kwargs = self.eval_args(node, st, acc)
         return self.call_value(st, acc, f, args, kwargs, node)
@@ -120,6 +125,20 @@ class CallMixin(object):
             return st, self.from_sort(fn(*zs), rsort)
         if tag == "specfun":
             return st, self.C.SPECFUNS[f.py[1]](self, st, *args)
+        if tag == "macro":
+            params, text = self.C.MACROS[f.py[1]]
+            saved = st.env
+            env = dict(saved)
+            for pn, a in zip(params, args):
+                env[pn] = a
+            st.env = env
+            try:
+                st, v = self.eval(self.parse_spec(text), st, acc)
+            finally:
+                st.env = saved
+            return st, v
+        if tag == "elem_at":
+            return st, f.py[1](st, self.as_int(args[0]))
         if tag == "contract":
             return self.apply_contract(st, acc, self.get_contract(f.py[1]), None, None, args, kwargs, node)
         if tag == "bound":
@@ -303,6 +322,8 @@ class CallMixin(object):
             names = names[1:]
         elif selfv is not None and fn is None:
             env["self"] = selfv
+            if names and names[0] == "self":
+                names = names[1:]
         rest = []
         for k, v in enumerate(pos):
             if v.kind == "starred":
@@ -417,13 +438,11 @@ class CallMixin(object):
         return n
 
     def merge_with_tails(self, states):
-        n = min(len(s.pc) for s in states)
-        k = 0
-        from .engine import _same
-        while k < n and all(_same(states[0].pc[k], s.pc[k]) for s in states[1:]):
-            k += 1
-        tails = [z3.And(s.pc[k:]) if len(s.pc) > k else z3.BoolVal(True) for s in states]
-        return self.merge(states), tails
+        live = [s for s in states if s is not None]
+        if len(live) == 1:
+            return live[0], [z3.BoolVal(True)]
+        merged = self.merge(states)
+        return merged, self._last_tails
 
     def call_lambda(self, st, acc, lam, env, args, kwargs, node):
         names = [a.arg for a in lam.args.args]
@@ -471,6 +490,9 @@ class CallMixin(object):
         cid = "lib:%s" % dotted
         if cid in self.reg:
             return self.apply_contract(st, acc, self.reg[cid], None, None, args, kwargs, node)
+        if dotted == "logging.getLogger":
+            self.assumptions_used.add("A-noeffect")
+            return st, SV(None, "module", py="logger")
         if dotted in DROPPED_CALLS or dotted.split(".")[-1] in DROPPED_METHOD_NAMES \
                 and dotted.split(".")[0] in ("logging", "logger", "warnings", "sys"):
             self.assumptions_used.add("A-noeffect")
@@ -671,6 +693,10 @@ class CallMixin(object):
             if v.cases is not None:
                 return st, self.mk_int(self._fold_cases(v, lambda s: z3.IntVal(len(s)), z3.IntSort()))
             n = self.u.str_len(self.as_str(v))
+            st.assume(n >= 0)
+            return st, self.mk_int(n)
+        if v.z is not None and v.cls == "tuple":
+            n = self.tuple_len_f()(self.u.r(v.z))
             st.assume(n >= 0)
             return st, self.mk_int(n)
         if v.z is not None and v.cls in ("list", "tuple", "dict", "set"):
@@ -892,10 +918,10 @@ class CallMixin(object):
                 n = self.heap_array(st, "$len")[rs]
             else:
                 k = u.fresh_int("k")
-                ln = self.heap_array(st, "$len")[rs]
-                el = self.heap_array(st, "$at")[rs]
-                st.assume(z3.ForAll([x], has[x] == z3.Exists([k], z3.And(0 <= k, k < ln, el[k] == x))))
-                st.assume(z3.ForAll([k], z3.Implies(z3.And(0 <= k, k < ln), has[el[k]])))
+                ln = self.seq_len(st, src)
+                elf = self.seq_elems(st, src)
+                st.assume(z3.ForAll([x], has[x] == z3.Exists([k], z3.And(0 <= k, k < ln, elf(k) == x))))
+                st.assume(z3.ForAll([k], z3.Implies(z3.And(0 <= k, k < ln), has[elf(k)])))
                 n = u.fresh_int("setlen")
                 st.assume(z3.And(n >= 0, n <= ln, (n == 0) == (ln == 0)))
             st.heap["$has"] = z3.Store(self.heap_array(st, "$has"), r, has)
@@ -909,7 +935,15 @@ class CallMixin(object):
         src = args[0]
         if src.kind == "pytuple":
             return st, self.new_list(st, [self.box(st, x) for x in src.py])
-        if src.kind == "ref" and src.cls in ("list", "tuple", "iterator"):
+        if src.kind == "ref" and src.cls == "tuple":
+            u = self.u
+            n = self.seq_len(st, src)
+            res = self.new_symbolic_seq(st, "list", src.elem, length=n)
+            k = u.fresh_int("k")
+            se, de = self.seq_elems(st, src), self.seq_elems(st, res)
+            st.assume(z3.ForAll([k], z3.Implies(z3.And(0 <= k, k < n), de(k) == se(k))))
+            return st, res
+        if src.kind == "ref" and src.cls in ("list", "iterator"):
             u = self.u
             rs = self.as_ref(src)
             res = self.alloc(st, "list", src.elem)
@@ -925,8 +959,15 @@ class CallMixin(object):
         raise Undecided("list(%r)" % (src,))
 
     def bi_tuple(self, st, acc, args, kwargs, node):
+        if args and args[0].kind == "ref" and args[0].cls == "tuple":
+            return st, args[0]
         st, l = self.bi_list(st, acc, args, kwargs, node)
-        return st, SV(l.z, "ref", cls="tuple", elem=l.elem)
+        n = self.seq_len(st, l)
+        res = self.new_symbolic_seq(st, "tuple", l.elem, length=n)
+        k = self.u.fresh_int("k")
+        se, de = self.seq_elems(st, l), self.seq_elems(st, res)
+        st.assume(z3.ForAll([k], z3.Implies(z3.And(0 <= k, k < n), de(k) == se(k))))
+        return st, res
 
     def bi_iter(self, st, acc, args, kwargs, node):
         src = args[0]
